@@ -68,6 +68,20 @@ const char *sym_mangled(uintptr_t pc) {
     return s.name;
 }
 
+uintptr_t sym_start(uintptr_t pc) {
+    load_syms();
+    if (g_syms.empty()) return 0;
+    size_t lo = 0, hi = g_syms.size();
+    while (lo + 1 < hi) {
+        size_t mid = (lo + hi) / 2;
+        if (g_syms[mid].addr <= pc)
+            lo = mid;
+        else
+            hi = mid;
+    }
+    return g_syms[lo].addr <= pc ? g_syms[lo].addr : 0;
+}
+
 bool mangled_is_lib(const char *m) {
     if (m == nullptr) return false;
     // _ZN[KVrRO]*6Qentem...  : a function whose outermost scope is namespace Qentem
